@@ -29,6 +29,7 @@ REGISTRY = {
     "S04": ("checks.extra_checks", "s04"),
     "S05": ("checks.extra_checks", "s05"),
     "S06": ("checks.extra_checks", "s06"),
+    "S07": ("checks.extra_checks", "s07"),
     "C04": ("checks.arith_checks", "c04"),
     "C05": ("checks.arith_checks", "c05"),
     "C12": ("checks.controlb_checks", "c12"),
